@@ -77,7 +77,10 @@ def run(module, cfg=None, env=None, workers=1, heap='3g', timeout=3600,
     """Run TLC on spec/<module>.tla with spec/<cfg>.cfg."""
     cfg = cfg or module
     meta = tempfile.mkdtemp(prefix='tlc-', dir=config.workdir('tlc'))
-    cmd = ['java', '-Xmx' + heap, '-XX:+UseParallelGC',
+    # -Xss: the recursive operators of the specifications (Lev, SortAsc, Dedup, the Big* arithmetic) are evaluated
+    # on the Java stack; with the 1 MB default a 16 x 17 character Levenshtein table sits at the limit and
+    # overflows or not depending on when the JIT compiles the evaluator (seen under 16 parallel JVMs)
+    cmd = ['java', '-Xmx' + heap, '-Xss' + config.TLC_STACK, '-XX:+UseParallelGC',
            '-cp', config.TLA_JAR + ':' + config.TLA_DEPS, 'tlc2.TLC',
            '-workers', str(workers), '-metadir', meta, '-noGenerateSpecTE',
            '-config', cfg_path or os.path.join(config.SPEC, cfg + '.cfg')]
